@@ -36,31 +36,26 @@ Proof.
   destruct H as [H1 H2]. apply Z.eqb_eq in H1. subst x. cbn [List.length repeat]. f_equal. apply IH. exact H2.
 Qed.
 
-(* a single-colour payload is determined by its colour and its size *)
-Lemma mono_canonical : forall b c, mono b = Some c -> b = repeat c (List.length b).
-Proof.
-  intros [|x l] c H; cbn [mono] in H; [discriminate|].
-  destruct (forallb (Z.eqb x) l) eqn:E; [|discriminate]. injection H as ->.
-  cbn [List.length repeat]. f_equal. apply forallb_eqb_repeat. exact E.
-Qed.
-
-Lemma mono_in : forall b c, mono b = Some c -> In c b.
-Proof. intros [|x l] c H; cbn [mono] in H; [discriminate|]. destruct (forallb (Z.eqb x) l); [|discriminate]. injection H as ->. left. reflexivity. Qed.
-
 (* two hex digits per colour component *)
-Lemma hex2_length : forall n, 0 <= n < 256 -> List.length (render_int pad_hex 2 n) = 2%nat.
+Lemma hex2_length : forall n, 0 <= n < 256 -> List.length (h2 n) = 2%nat.
 Proof.
-  intros n H.
+  intros n H. unfold h2.
   assert (F : forallb (fun k => Nat.eqb (List.length (render_int pad_hex 2 (Z.of_nat k))) 2) (seq 0 256) = true) by (vm_compute; reflexivity).
   rewrite forallb_forall in F. specialize (F (Z.to_nat n)). rewrite Z2Nat.id in F by lia.
   apply Nat.eqb_eq. apply F. apply in_seq. lia.
 Qed.
 
-Definition colour (c : Z) : Prop := 0 <= c < 16777216.
+Lemma h2_inj : forall a b, 0 <= a -> 0 <= b -> h2 a = h2 b -> a = b.
+Proof. intros a b Ha Hb E. unfold h2 in E. apply render_hex_inj in E; assumption. Qed.
 
-Lemma color_name_inj : forall c1 c2, colour c1 -> colour c2 -> color_name c1 = color_name c2 -> c1 = c2.
+(* a colour: an RGB value, or 2^32 + an RGBA value *)
+Definition colour (k : Z) : Prop := 0 <= k < 16777216 \/ RGBA_TAG <= k < 2 * RGBA_TAG.
+
+Lemma name3_inj : forall c1 c2, 0 <= c1 < 16777216 -> 0 <= c2 < 16777216 ->
+  h2 (c1 / 65536) ++ h2 ((c1 / 256) mod 256) ++ h2 (c1 mod 256) =
+  h2 (c2 / 65536) ++ h2 ((c2 / 256) mod 256) ++ h2 (c2 mod 256) -> c1 = c2.
 Proof.
-  unfold colour, color_name. intros c1 c2 H1 H2 E.
+  intros c1 c2 H1 H2 E.
   assert (A1 : 0 <= c1 / 65536 < 256) by (split; [apply Z.div_pos; lia | apply Z.div_lt_upper_bound; lia]).
   assert (A2 : 0 <= c2 / 65536 < 256) by (split; [apply Z.div_pos; lia | apply Z.div_lt_upper_bound; lia]).
   assert (B1 : 0 <= (c1 / 256) mod 256 < 256) by (apply Z.mod_pos_bound; lia).
@@ -69,12 +64,71 @@ Proof.
   assert (C2 : 0 <= c2 mod 256 < 256) by (apply Z.mod_pos_bound; lia).
   apply app_len_inj in E; [|rewrite !hex2_length by assumption; reflexivity]. destruct E as [E1 E].
   apply app_len_inj in E; [|rewrite !hex2_length by assumption; reflexivity]. destruct E as [E2 E3].
-  apply render_hex_inj in E1; try lia. apply render_hex_inj in E2; try lia. apply render_hex_inj in E3; try lia.
+  apply h2_inj in E1; try lia. apply h2_inj in E2; try lia. apply h2_inj in E3; try lia.
   assert (Q : forall a, a / 65536 = a / 256 / 256) by (intros; rewrite Z.div_div by lia; reflexivity).
   rewrite !Q in E1.
   rewrite (Z.div_mod c1 256), (Z.div_mod c2 256) by lia.
   rewrite (Z.div_mod (c1 / 256) 256), (Z.div_mod (c2 / 256) 256) by lia.
   rewrite E1, E2, E3. reflexivity.
+Qed.
+
+Lemma name4_inj : forall c1 c2, 0 <= c1 < RGBA_TAG -> 0 <= c2 < RGBA_TAG ->
+  h2 (c1 / 16777216) ++ h2 ((c1 / 65536) mod 256) ++ h2 ((c1 / 256) mod 256) ++ h2 (c1 mod 256) =
+  h2 (c2 / 16777216) ++ h2 ((c2 / 65536) mod 256) ++ h2 ((c2 / 256) mod 256) ++ h2 (c2 mod 256) -> c1 = c2.
+Proof.
+  unfold RGBA_TAG. intros c1 c2 H1 H2 E.
+  assert (A1 : 0 <= c1 / 16777216 < 256) by (split; [apply Z.div_pos; lia | apply Z.div_lt_upper_bound; lia]).
+  assert (A2 : 0 <= c2 / 16777216 < 256) by (split; [apply Z.div_pos; lia | apply Z.div_lt_upper_bound; lia]).
+  assert (B1 : 0 <= (c1 / 65536) mod 256 < 256) by (apply Z.mod_pos_bound; lia).
+  assert (B2 : 0 <= (c2 / 65536) mod 256 < 256) by (apply Z.mod_pos_bound; lia).
+  assert (C1 : 0 <= (c1 / 256) mod 256 < 256) by (apply Z.mod_pos_bound; lia).
+  assert (C2 : 0 <= (c2 / 256) mod 256 < 256) by (apply Z.mod_pos_bound; lia).
+  assert (D1 : 0 <= c1 mod 256 < 256) by (apply Z.mod_pos_bound; lia).
+  assert (D2 : 0 <= c2 mod 256 < 256) by (apply Z.mod_pos_bound; lia).
+  apply app_len_inj in E; [|rewrite !hex2_length by assumption; reflexivity]. destruct E as [E1 E].
+  apply app_len_inj in E; [|rewrite !hex2_length by assumption; reflexivity]. destruct E as [E2 E].
+  apply app_len_inj in E; [|rewrite !hex2_length by assumption; reflexivity]. destruct E as [E3 E4].
+  apply h2_inj in E1; try lia. apply h2_inj in E2; try lia. apply h2_inj in E3; try lia. apply h2_inj in E4; try lia.
+  assert (Q1 : forall a, a / 65536 = a / 256 / 256) by (intros; rewrite Z.div_div by lia; reflexivity).
+  assert (Q2 : forall a, a / 16777216 = a / 256 / 256 / 256) by (intros; rewrite !Z.div_div by lia; reflexivity).
+  rewrite !Q2 in E1. rewrite !Q1 in E2.
+  rewrite (Z.div_mod c1 256), (Z.div_mod c2 256) by lia.
+  rewrite (Z.div_mod (c1 / 256) 256), (Z.div_mod (c2 / 256) 256) by lia.
+  rewrite (Z.div_mod (c1 / 256 / 256) 256), (Z.div_mod (c2 / 256 / 256) 256) by lia.
+  rewrite E1, E2, E3, E4. reflexivity.
+Qed.
+
+Lemma name3_length : forall c, 0 <= c < 16777216 ->
+  List.length (h2 (c / 65536) ++ h2 ((c / 256) mod 256) ++ h2 (c mod 256)) = 6%nat.
+Proof.
+  intros c H. rewrite !app_length, !hex2_length; [reflexivity | | |].
+  - apply Z.mod_pos_bound; lia.
+  - apply Z.mod_pos_bound; lia.
+  - split; [apply Z.div_pos; lia | apply Z.div_lt_upper_bound; lia].
+Qed.
+
+Lemma name4_length : forall c, 0 <= c < RGBA_TAG ->
+  List.length (h2 (c / 16777216) ++ h2 ((c / 65536) mod 256) ++ h2 ((c / 256) mod 256) ++ h2 (c mod 256)) = 8%nat.
+Proof.
+  unfold RGBA_TAG. intros c H. rewrite !app_length, !hex2_length; [reflexivity | | | |].
+  - apply Z.mod_pos_bound; lia.
+  - apply Z.mod_pos_bound; lia.
+  - apply Z.mod_pos_bound; lia.
+  - split; [apply Z.div_pos; lia | apply Z.div_lt_upper_bound; lia].
+Qed.
+
+(* different colours (also an RGB and an RGBA colour, also two fully transparent colours) have different names *)
+Lemma color_name_inj : forall k1 k2, colour k1 -> colour k2 -> color_name k1 = color_name k2 -> k1 = k2.
+Proof.
+  unfold colour, color_name. intros k1 k2 H1 H2 E. unfold RGBA_TAG in *.
+  destruct (Z.ltb_spec k1 4294967296); destruct (Z.ltb_spec k2 4294967296).
+  - apply name3_inj; [lia | lia | exact E].
+  - exfalso. apply (f_equal (@List.length _)) in E.
+    rewrite name3_length in E by lia. rewrite name4_length in E by (unfold RGBA_TAG; lia). discriminate.
+  - exfalso. apply (f_equal (@List.length _)) in E.
+    rewrite name3_length in E by lia. rewrite name4_length in E by (unfold RGBA_TAG; lia). discriminate.
+  - assert (k1 - 4294967296 = k2 - 4294967296); [|lia].
+    apply name4_inj; [unfold RGBA_TAG; lia | unfold RGBA_TAG; lia | exact E].
 Qed.
 
 Lemma sc_path_inj : forall ext c1 c2, colour c1 -> colour c2 -> sc_path ext c1 = sc_path ext c2 -> c1 = c2.
@@ -117,8 +171,15 @@ Section FileRefine.
   Hypothesis Hinj : forall a b, V a -> V b -> loc a = loc b -> a = b.
   Hypothesis Hdisj : forall a c, V a -> loc a <> scp c.
 
-  (* payloads: the pixels of a tile of npix pixels, colours in range *)
-  Definition payload_ok (b : bytes) : Prop := List.length b = npix /\ Forall colour b.
+  (* payloads: channel count (3 = RGB, 4 = RGBA) and the npix pixel values of a tile, in the range of the mode *)
+  Definition in_range (hi c : Z) : bool := (0 <=? c) && (c <? hi).
+  Definition payload_okb (b : bytes) : bool :=
+    match b with
+    | ch :: px => Nat.eqb (List.length px) npix &&
+                  (((ch =? 3) && forallb (in_range 16777216) px) || ((ch =? 4) && forallb (in_range RGBA_TAG) px))
+    | [] => false
+    end.
+  Definition payload_ok (b : bytes) : Prop := payload_okb b = true.
 
   Definition fop_ok (o : op) : Prop :=
     op_ok V o /\
@@ -128,7 +189,29 @@ Section FileRefine.
     | _ => True
     end.
 
-  Definition canon (c : Z) : bytes := repeat c npix.
+  (* the single-colour tile of a colour *)
+  Definition canon (k : Z) : bytes :=
+    if k <? RGBA_TAG then 3 :: repeat k npix else 4 :: repeat (k - RGBA_TAG) npix.
+
+  Lemma mono_payload : forall b k, payload_ok b -> mono b = Some k -> colour k /\ b = canon k.
+  Proof.
+    unfold payload_ok, payload_okb, mono, canon, colour, in_range. intros [|ch [|c r]] k H M; try discriminate.
+    destruct (forallb (Z.eqb c) r) eqn:F; [|discriminate]. apply forallb_eqb_repeat in F.
+    apply andb_true_iff in H. destruct H as [L H]. apply Nat.eqb_eq in L. cbn [List.length] in L.
+    assert (R : c :: r = repeat c npix) by (rewrite <- L; cbn [repeat]; f_equal; exact F).
+    assert (Hd : forall hi, forallb (fun c0 => (0 <=? c0) && (c0 <? hi)) (c :: r) = true -> 0 <= c < hi).
+    { intros hi Q. cbn [forallb] in Q. apply andb_true_iff in Q. destruct Q as [Q _].
+      apply andb_true_iff in Q. destruct Q as [Q1 Q2]. apply Z.leb_le in Q1. apply Z.ltb_lt in Q2. split; assumption. }
+    apply orb_true_iff in H. destruct H as [H|H]; apply andb_true_iff in H; destruct H as [C H];
+      apply Z.eqb_eq in C; subst ch; apply Hd in H.
+    - change (3 =? 4) with false in M. cbv iota in M.
+      apply (f_equal (fun o : option Z => match o with Some v => v | None => 0 end)) in M. cbv beta iota in M. subst k. split; [left; exact H|].
+      destruct (Z.ltb_spec c RGBA_TAG) as [_|B]; [f_equal; exact R|]. exfalso. unfold RGBA_TAG in B. lia.
+    - change (4 =? 4) with true in M. cbv iota in M.
+      apply (f_equal (fun o : option Z => match o with Some v => v | None => 0 end)) in M. cbv beta iota in M. subst k. split; [right; unfold RGBA_TAG in *; lia|].
+      destruct (Z.ltb_spec (RGBA_TAG + c) RGBA_TAG) as [B|_]; [exfalso; lia|].
+      replace (RGBA_TAG + c - RGBA_TAG) with c by lia. f_equal. exact R.
+  Qed.
 
   Record Inv (s : fs) : Prop := {
     inv_sc : forall c n, colour c -> fs_get s (scp c) = Some n -> exists i, n = NFile i (canon c);
@@ -409,13 +492,11 @@ Section FileRefine.
   Lemma fstore_ok : forall s m a b, Inv s -> V a -> payload_ok b -> frel s m ->
     Inv (fstore layout ext link s a b) /\ frel (fstore layout ext link s a b) (supd m a (Some b)).
   Proof.
-    intros s m a b Hi Va [Hlen Hcol] Hr.
+    intros s m a b Hi Va Hp Hr.
     destruct link_cases as [L|L].
     - rewrite fstore_unlinked by exact L. split; [apply plain_inv | apply plain_rel]; assumption.
     - rewrite fstore_linked by exact L. destruct (mono b) as [c|] eqn:M.
-      + assert (Hc : colour c) by (rewrite Forall_forall in Hcol; apply Hcol; apply mono_in; exact M).
-        assert (Hb : b = canon c) by (unfold canon; rewrite <- Hlen; apply mono_canonical; exact M).
-        apply mono_ok; assumption.
+      + destruct (mono_payload b c Hp M) as [Hc Hb]. apply mono_ok; assumption.
       + split; [apply plain_inv | apply plain_rel]; assumption.
   Qed.
 
